@@ -126,3 +126,22 @@ package routetab
 //@   ensures unknown-target: !present(t.routes, tkey(target)) ==> result1 != nil
 //@   ensures table-untouched: forall k common.Hash :: (present(t.routes, k) <==> old(present(t.routes, k))) && t.routes[k] == old(t.routes[k])
 //@   loop 1 invariant 0 - 1 <= rangeindex && rangeindex < len(routes) && len(paths) <= rangeindex + 1
+
+//@ # ---- C34: only authenticated address records reach the address book --------------------------
+//@ # (ParseAddress is verified in pkg/aurora: success means the signature binds underlay, overlay and
+//@ # network id; seen from here only success/failure matters)
+//@ extern func github.com/gauss-project/aurorafs/pkg/aurora.ParseAddress
+//@   ensures result1 == nil ==> result0 != nil
+//@   ensures result1 != nil ==> result0 == nil
+//@   assigns nothing
+//@ extern func (github.com/gauss-project/aurorafs/pkg/addressbook.Interface).Put
+//@   assigns nothing
+
+//@ func (*Service).saveUnderlay
+//@   property C34
+//@   requires s != nil && s.addressbook != nil && s.logger != nil
+//@   requires forall i :: 0 <= i && i < len(uList) ==> uList[i] != nil
+//@   callassert aurora.ParseAddress checked-with-the-message-fields-and-this-network: $networkID == s.networkID && $underlay == v.Underlay && $overlay == v.Dest && $signature == v.Signature
+//@   callassert Interface.Put only-records-that-parsed: addr != nil && err == nil && $overlay == addr.Overlay
+//@   loop 1 invariant s != nil && s.addressbook != nil && s.logger != nil && 0 - 1 <= rangeindex && rangeindex < len(uList)
+//@   loop 1 invariant forall i :: 0 <= i && i < len(uList) ==> uList[i] != nil
